@@ -412,6 +412,17 @@ def run(mon, spec):
                        J2000 - 1.0, J2000 + 1.0):
                 mon.begin("epoch", [planet, jd])
                 case_epoch(mon, planet, jd)
+            # the series' time argument is zero at J2000.0: instants a
+            # fraction of a second to a minute either side of it
+            for k in (0.05, 0.5, 1.0, 2.0, 3.0, 5.0, 30.0, 60.0):
+                for sgn in (-1.0, 1.0):
+                    jd = J2000 + sgn * k / 86400.0
+                    mon.begin("epoch", [planet, jd])
+                    case_epoch(mon, planet, jd)
+                    mon.begin("second", [planet, jd])
+                    case_second(mon, planet, jd)
+                    mon.cls("within-a-minute-of-J2000", ("j2000", planet,
+                                                         jd), [planet, jd])
         for k in range(spec["n"]):
             r = rng.random()
             if r < 0.8:
